@@ -36,8 +36,38 @@ ASSUMPTIONS = [
     "the behaviour of a binary is a function of (generated C, compiler command, the world the C compiler reads: compiler + headers/extra C files); the main theorem C08_cache_fresh covers histories in which every world change shows in ccinfo (the property's own step kinds, discharged in ProofsEdits.v); a header-only edit is modelled (world w -> w+10), refuted (C08_cache_fresh_refuted_header_edit) and replayed as a known finding",
     "the hash written into the heading is injective on (code, ccinfo, command) (BLAKE2b collisions ignored)",
     "invocations sharing a cache directory are sequential and the clock is monotone; -o never names a file inside the cache directory",
+    "a build killed while writing its output leaves an EMPTY file (Interrupt step; the --cc wrapper truncates the output): a truncated non-empty output with a fresh mtime would pass the size test",
+    "the files of different slots have different names (<cache>/<slot>.c, <cache>/<slot>): a source called a.c.nelua breaks this (the real compiler then fails with gcc's 'input file is the same as output file'); other output modes (--object ...) are not in this model",
     "history replay is differential testing on generated histories, not a proof that model = code",
 ]
+
+THEOREM_CLASSES = {
+    "C08_cache_fresh": "main",
+    "C08_expected_is_nocache_run": "main",
+    "C08_source_and_option_edits_show_in_text": "main",
+    "C08_cflags_and_release_change_command": "corollary",
+    "C08_cache_fresh_general_policy": "corollary",
+    "C08_sufficient_policy": "corollary",
+    "C08_strict_compare_needed": "refutation",
+    "C08_nocheading_guard_needed": "refutation",
+    "C08_output_guard_needed": "refutation",
+    "C08_hash_in_heading_needed": "refutation",
+    "C08_size_test_needed": "refutation",
+    "C08_header_edit_leaves_text": "refutation",
+    "C08_cache_fresh_refuted_header_edit": "refutation",
+}
+UNPROVED = [
+    "that compile_code/compile_binary are the machine of coq/C08/Model.v: tied by replaying histories on the real compiler and by a structural scrape of the two conditions, not proved",
+    "header-only edits (cinclude'd headers, extra C files): outside the property's step kinds; modelled, refuted (C08_cache_fresh_refuted_header_edit) and replayed as a known finding",
+    "a build killed while writing leaves an EMPTY file (what Interrupt models and the --cc wrapper does); a killed linker that leaves a truncated non-empty file with a fresh mtime would be served: not modelled, not tested",
+    "file-name aliasing between slots (a source named a.c.nelua uses <cache>/a.c both as C file and as binary: the real compiler stops with 'input file is the same as output file'), output modes with another extension (--object/--static-lib/--shared-lib/--assembly share the slot's C file; their mode sequences are compared in C07's differential, not here), -o inside the cache directory, concurrent invocations, non-monotone clocks",
+    "the generated C of a required module / -D / -P edit is the front end's business: the model only uses that the binary is a function of (C file, command, world)",
+]
+MANIFEST_ENTRY = {
+    "text": "proof: for the policy scraped from compile_binary/compile_code, every history over the property's step kinds (source, required-module, -D/-P/--cflags/--release edits, source and compiler switches, -o, --no-cache, --code, interrupted builds), at any spacing, runs a binary built from the current text, and 'expected' is the model's own --no-cache run in an empty directory (C08_cache_fresh, C08_expected_is_nocache_run, C08_source_and_option_edits_show_in_text); model = code is tied by real-time history replay; documented limit, refuted and keyed as a known finding: an edit of a cinclude'd header alone",
+    "note": "trusted: coqc, regex scrape of the two conditions of compile_binary (comments stripped, conjunct lists) and of the heading/hash in compile_code, lfs whole-second mtimes, the replayer (harness/C08/replay.py: real compiler, os.utime ageing, --cc wrapper), gcc/clang; assumes an injective heading hash, sequential invocations, a killed build leaving an empty file, distinct slot file names",
+    "technique": "Coq state machine over a cache directory with an inductive invariant, parametric in a scraped policy + replay of generated/corpus/witness histories on the real compiler with the model run on observed write times",
+}
 
 TPS = 10
 W_SAME_SECOND = "R:0:-:0:0:0:0:0:0 R:0:-:1:0:0:0:0:0"
@@ -76,20 +106,37 @@ def gen(ctx):
 
 
 def _gen(ctx, problems):
-    cc = vlib.repo_read("lualib/nelua/ccompiler.lua")
+    cc_raw = vlib.repo_read("lualib/nelua/ccompiler.lua")
+    # comments carry no meaning: strip them before looking at the conditions
+    cc = re.sub(r"--\[\[.*?\]\]", "", cc_raw, flags=re.S)
+    cc = re.sub(r"--[^\n]*", "", cc)
     m = re.search(r"function compiler\.compile_binary\(.*?using cached binary", cc, re.S)
     if not m:
         problems.append("cannot find the reuse test of compiler.compile_binary")
     body = m.group(0)
-    op = re.search(r"cfile_mtime\s*(<=|<)\s*binfile_mtime", body)
-    if not op:
-        problems.append("cannot find the comparison cfile_mtime <=|< binfile_mtime")
-    if not re.search(r"if\s+not\s+config\.no_cache\b[^\n]*\bthen", body):
+    # outer guard: `if not config.no_cache [and <conjunct>]* then`
+    og = re.search(r"\bif\s+(not\s+config\.no_cache\b(?:(?!\bthen\b).)*?)\s+then\b", body, re.S)
+    if not og:
         problems.append("compile_binary: the --no-cache guard is not where the model expects it")
-    p_le = op.group(1) == "<="
-    p_size = bool(re.search(r"binfile_size\s*>\s*0", body))
-    p_reuse_out = "config.output" not in body
-    p_nohead_cache = "nocheading" not in body
+    outer = [re.sub(r"\s+", " ", c.strip()) for c in re.split(r"\band\b", og.group(1))] if og else []
+    extra = [c for c in outer if c not in ("not config.no_cache", "not config.output", "not compileopts.nocheading")]
+    if extra:
+        problems.append("compile_binary: unknown conjunct(s) in the cache guard: %s" % extra)
+    # inner test: the `if` whose body reports "using cached binary"
+    ig = re.search(r"\bif\s+((?:(?!\bthen\b).)*?)\s+then\s+if\s+config\.verbose\s+then\s+console\.info\(\"using cached binary", body, re.S)
+    if not ig:
+        problems.append("compile_binary: cannot find the condition under which the cached binary is used")
+    inner = [re.sub(r"\s+", " ", c.strip()) for c in re.split(r"\band\b", ig.group(1))] if ig else []
+    cmpc = [c for c in inner if re.fullmatch(r"cfile_mtime (<=|<) binfile_mtime", c)]
+    if len(cmpc) != 1:
+        problems.append("cannot find the conjunct cfile_mtime <|<= binfile_mtime in the reuse test: %s" % inner)
+    unknown = [c for c in inner if c not in cmpc and c not in ("cfile_mtime", "binfile_mtime", "binfile_size", "binfile_size > 0")]
+    if unknown:
+        problems.append("compile_binary: unknown conjunct(s) in the reuse test: %s" % unknown)
+    p_le = bool(cmpc) and "<=" in cmpc[0]
+    p_size = "binfile_size > 0" in inner
+    p_reuse_out = "not config.output" not in outer
+    p_nohead_cache = "not compileopts.nocheading" not in outer
     m2 = re.search(r"function compiler\.compile_code\(.*?\nend", cc, re.S)
     if not m2:
         problems.append("cannot find compiler.compile_code")
@@ -101,6 +148,8 @@ def _gen(ctx, problems):
     hash_args = set(re.findall(r"\w+", hm.group(1))) if hm else set()
     p_hash = bool(hm and fm and {"ccode", "ccinfotext", "ccmd"} <= hash_args
                   and "Compile hash: %s" in fm.group(1) and re.search(r"\bhash\b", fm.group(2)))
+    # a repair may hash the contents of the local headers too
+    p_hdr_hashed = bool(hm and re.search(r"\bheaders?\b", hm.group(1)))
     p_cmd = bool(fm and "Compile command: %s" in fm.group(1) and re.search(r"\bccmd\b", fm.group(2)))
     # a repair may delete the slot's binary when the C file is rewritten (before fs.makefile)
     mk = code.find("fs.makefile(cfile")
@@ -120,6 +169,7 @@ def _gen(ctx, problems):
            "Definition GENPOL : policy := mkPol %s %s %s %s %s %s.\n"
            "(* ticks per second used by the replayer; mtimes are whole seconds (lfs st_mtime) *)\n"
            "Definition TPS : Z := %d%%Z.\n" % (b(p_le), b(p_hash), b(p_size), b(p_reuse_out), b(p_nohead_cache), b(p_del), TPS))
+    txt += "(* compile_code hashes the local headers the generated code includes (a repair; false today) *)\nDefinition HEADERS_HASHED : bool := %s.\n" % b(p_hdr_hashed)
     cdefs = vlib.repo_read("lualib/nelua/cdefs.lua")
     gm = re.search(r"compilers_flags\.gcc = tabler\.updatecopy\(compilers_flags\.cc, \{(.*?)\n\}\)", cdefs, re.S)
     rel = re.search(r'cflags_release = "([^"]*)"', gm.group(1)) if gm else None
@@ -132,8 +182,8 @@ def _gen(ctx, problems):
             (coqlist(rel.group(1) if rel else ""), coqlist(dev.group(1) if dev else "")))
     vlib.write_if_changed(os.path.join(vlib.coq_dir(ID), "Gen.v"), txt)
     ctx.genpol = {"p_le": p_le, "p_head_hash": p_hash, "p_size_chk": p_size, "p_reuse_out": p_reuse_out,
-                  "p_nohead_cache": p_nohead_cache, "p_del_rewrite": p_del}
-    return dict(ctx.genpol, gcc_cflags_release=rel.group(1) if rel else None, gcc_cflags_devel=dev.group(1) if dev else None, heading_has_command=p_cmd, mtime_unit="whole seconds (lfs st_mtime)", ticks_per_second=TPS)
+                  "p_nohead_cache": p_nohead_cache, "p_del_rewrite": p_del, "headers_hashed": p_hdr_hashed}
+    return dict(ctx.genpol, cache_guard_conjuncts=outer, reuse_test_conjuncts=inner, gcc_cflags_release=rel.group(1) if rel else None, gcc_cflags_devel=dev.group(1) if dev else None, heading_has_command=p_cmd, mtime_unit="whole seconds (lfs st_mtime)", ticks_per_second=TPS)
 
 
 # --------------------------------------------------------------------------- model driver
@@ -616,7 +666,6 @@ def correspond(ctx):
         "invocations_under_partial_theorem_hypotheses": n_hyp_checked,
         "traces_validated_against_impl": len(results),
         "model_evaluations": model.calls,
-        "unproved": ["behavioural change without change of generated C / command / compiler identity (edited C header, extra C file) is outside the model",
-                     "concurrent invocations, non-monotone clocks, -o inside the cache directory"],
+        "unproved": UNPROVED,
     })
     return cov
